@@ -147,11 +147,16 @@ def closure(ex, E, name):
                     b0 = z3.substitute(R0(x, y), *zip(ps0, bs)) if not all(p.eq(b) for p, b in zip(ps0, bs)) else R0(x, y)
                     same = z3.eq(z3.simplify(b0), z3.simplify(body))
                     if not same:
-                        # bound-variable names differ between two renderings of the same formula: ask the solver (no axioms,
-                        # no path condition: pure first-order equivalence)
+                        # bound-variable names differ between two renderings of the same formula, or one side goes through named
+                        # predicates: ask the solver (with the definitions in scope and the current path condition)
                         from .symexec import hard_check
                         sv = z3.Solver()
                         sv.set("timeout", 300)
+                        sv.set("rlimit", 800000)
+                        for ax in L.relevant_axioms([b0, body]):      # definitions of the named predicates occurring in either side
+                            sv.add(ax)
+                        for f in ex.pc:
+                            sv.add(f)
                         sv.add(b0 != body)
                         same = hard_check(sv, 300) == "unsat"
                     if same:
